@@ -36,7 +36,8 @@ def selPlane (m : Mesh) (ax : Nat) (x : Option Rat) : M Mesh :=
                              dims := removeAt p.2.dims ax, units := removeAt p.2.units ax }))
 
 /-- range selection: keeps the cells from the one containing the lower bound to the one
-containing the upper bound; subregions with positive overlap are clipped to the slab -/
+containing the upper bound; subregions overlapping the slab by more than half a cell (they
+consist of whole cells) are clipped to the slab -/
 def selRange (m : Mesh) (ax : Nat) (a b : Rat) : M Mesh :=
   if m.ndim ≤ ax then .error .value
   else
@@ -52,7 +53,8 @@ def selRange (m : Mesh) (ax : Nat) (a b : Rat) : M Mesh :=
         | .error e => .error e
         | .ok m' =>
           setSubs m' ((m.subs.filter fun p =>
-              !(decide (c1 + m.cellAt ax / 2 ≤ p.2.lo ax) || decide (p.2.hi ax ≤ c0 - m.cellAt ax / 2))).map fun p =>
+              !(decide (c1 + m.cellAt ax / 2 - m.cellAt ax / 2 ≤ p.2.lo ax) ||
+                decide (p.2.hi ax - m.cellAt ax / 2 ≤ c0 - m.cellAt ax / 2))).map fun p =>
             (p.1, { p.2 with pmin := setAt p.2.pmin ax (max (c0 - m.cellAt ax / 2) (p.2.lo ax)),
                              pmax := setAt p.2.pmax ax (min (c1 + m.cellAt ax / 2) (p.2.hi ax)) }))
 
